@@ -199,6 +199,10 @@ func (g *fastGenerator) unmarshalField(field *protogen.Field, message *protogen.
 		g.P(`for iNdEx < postIndex {`)
 		g.fieldItem(field, fieldname, message, false)
 		g.P(`}`)
+		// the last element must end where the packed run ends, not merely inside the buffer
+		g.P(`if iNdEx != postIndex {`)
+		g.P(`return `, protoifacePkg.Ident("UnmarshalOutput"), "{NoUnkeyedLiterals: input.NoUnkeyedLiterals, Flags: input.Flags},", g.Ident("io", "ErrUnexpectedEOF"))
+		g.P(`}`)
 		g.P(`} else {`)
 		g.P(`return `, protoifacePkg.Ident("UnmarshalOutput"), "{NoUnkeyedLiterals: input.NoUnkeyedLiterals, Flags: input.Flags},", g.Ident("fmt", "Errorf"), `("proto: wrong wireType = %d for field `, errFieldname, `", wireType)`)
 		g.P(`}`)
